@@ -117,6 +117,40 @@ def replay(run, f, tv):
 _TINY = {"n": 0}
 
 
+def replay_long(run, f, tv):
+    """a long schedule with the output fed back (Strapdown!LongSegs): after every segment the state must be the exact
+    flow of the segment (5x5 matrix exponential of the augmented system), the quaternion norm 1 at EVERY step"""
+    from scipy.linalg import expm
+    cmp = E.Cmp(run)
+    dt = tv["dt"][0] / tv["dt"][1]
+    x = state_vec(tv["pre"], 0.0)
+    p, v, R = x[:3].copy(), x[3:6].copy(), rot(tv["pre"]["q"])
+    step = 0
+    for k, sg in enumerate(tv["segs"]):
+        w = np.array(sg["w"], float) / sg["wd"]; a = np.array(sg["a"], float); g = float(sg["g"]); n = sg["n"]
+        worst = 0.0
+        for _ in range(n):
+            x = np.array(f(x, a, w, g, dt)).flatten()
+            step += 1
+            worst = max(worst, abs(float(x[6:] @ x[6:]) - 1.0)) if np.all(np.isfinite(x[6:])) else float("inf")
+        run.count("evaluations", n)
+        T = n * dt
+        M = np.zeros((5, 5)); M[:3, :3] = [[0, -w[2], w[1]], [w[2], 0, -w[0]], [-w[1], w[0], 0]]; M[:3, 3] = a; M[3, 4] = 1.0
+        Ex = expm(M * T)
+        e3 = np.array([0, 0, 1.0])
+        p = p + v * T + R @ Ex[:3, 4] - g * e3 * T * T / 2
+        v = v + R @ Ex[:3, 3] - g * e3 * T
+        R = R @ Ex[:3, :3]
+        tag = f"seg{k + 1}"
+        info = {"segment": sg, "steps_so_far": step, "dt": dt}
+        cmp.vec(f"strapdown/long/position/{tag}", "position after a long sequence of steps is not the exact flow", x[:3], p, tv, info)
+        cmp.vec(f"strapdown/long/velocity/{tag}", "velocity after a long sequence of steps is not the exact flow", x[3:6], v, tv, info)
+        cmp.vec(f"strapdown/long/attitude/{tag}", "attitude after a long sequence of steps is not R0 exp(w t)", rot_of(x[6:]), R, tv, info)
+        if not worst <= 1e-9:
+            run.violation(f"strapdown/long/unit_norm/{tag}", "the quaternion norm drifts when the output is fed back step after step",
+                          {"tv": tv, "worst_abs_norm_sq_minus_1": worst, "steps_so_far": step, "dt": dt})
+
+
 def rot_of(q):
     w, x, y, z = q
     return np.array([[w*w + x*x - y*y - z*z, 2*(x*y - w*z), 2*(x*z + w*y)],
@@ -136,7 +170,7 @@ def main():
     f = build()
     if "--replay" in sys.argv:
         d = json.load(open(sys.argv[sys.argv.index("--replay") + 1]))
-        replay(run, f, d["data"]["tv"])
+        (replay_long if d["data"]["tv"].get("op") == "long" else replay)(run, f, d["data"]["tv"])
         return run.finish()
     E.selftest()
     res = run_tlc("Strapdown.tla", f"Strapdown_{tier}.cfg", workdir=run.workdir, dump=True)
@@ -146,6 +180,10 @@ def main():
         tv = st["tv"]
         if tv["op"] == "start":
             continue
+        if tv["op"] == "long":
+            ops["long"] = ops.get("long", 0) + 1
+            replay_long(run, f, tv)
+            continue
         n += 1
         ops[tv["op"]] = ops.get(tv["op"], 0) + 1
         cells[tv["cell"]] = cells.get(tv["cell"], 0) + 1
@@ -153,7 +191,7 @@ def main():
         if n % 997 == 1:
             run.sample({k: tv[k] for k in ("op", "h", "a", "g", "depth")} | {"pre_q": tv["pre"]["q"]}, limit=6)
         replay(run, f, tv)
-    if not {"tick", "double"} <= set(ops) or not {"zero", "small", "regular", "beyondpi", "pi"} <= set(cells) or max(depths) < 2:
+    if not {"tick", "double", "long"} <= set(ops) or not {"zero", "small", "regular", "beyondpi", "pi"} <= set(cells) or max(depths) < 2:
         raise MachineryError(f"vacuous coverage: ops={ops} cells={cells} depths={depths}")
     run.assumptions += [
         "rotation per step of rational half-angle type (0, 1e-3 .. 4.7 rad incl. both sides of the small-angle switch and beyond pi); integer specific force and gravity; initial states rational",
